@@ -184,6 +184,8 @@ def random_env(rnd, d):
         for it in l["named"]:
             if it.get("env"):
                 env[it["env"]] = rnd.choice(d["alpha"]["envvals"])
+            if it.get("env2"):
+                env[it["env2"]] = rnd.choice(d["alpha"]["envvals"])
     return env
 
 
